@@ -57,6 +57,10 @@ class SweepStream(Stream):
             kwargs = {}
             for k, vs, kind in d["kw"]:
                 kwargs[paramlib.pn(k)] = vs[0] if kind == "scalar" else np.array(vs)
+                if kind == "array" and len(vs) % 2 == 0 and len(vs) >= 4 and k % 2 == 0:
+                    # a 2-D grid held in column-major memory order: sweep index k is still the k-th value in row-major
+                    # (logical) order, as for np.reshape(v, -1)
+                    kwargs[paramlib.pn(k)] = np.asfortranarray(np.array(vs).reshape(2, len(vs) // 2))
             mod = S.solve(**kwargs)
             Sm = np.asarray(mod.S)
             pts = []
